@@ -98,7 +98,46 @@ func runA4(c *core.Ctx) {
 						}
 						return true
 					})
-					c.Check(sig != "" && parsePos.IsValid() && spos > parsePos, cn+"/range-check", fd.Pos(), "narrow parse followed by "+sig, "the native parse into a "+r.goType+" is not followed by a range check of that width: out-of-range literals wrap")
+					// on every Go-level path of the handler the range helper runs after the parse and
+					// before the value is used (map assignment / store to memory)
+					pathWhy := ""
+					if paths, ok, why := EnumPaths(p, fd, 1, 512); !ok {
+						pathWhy = "cannot enumerate the handler's paths: " + why
+					} else {
+						em := emitModel{p}
+						recv := recvObj(p, fd)
+						for _, pt := range paths {
+							parsed, ranged := false, false
+							for _, ev := range pt {
+								if ev.Call == nil {
+									continue
+								}
+								se, ok := ev.Call.Fun.(*ast.SelectorExpr)
+								if !ok {
+									continue
+								}
+								switch {
+								case strings.HasPrefix(se.Sel.Name, "parse_"):
+									parsed = true
+								case strings.HasPrefix(se.Sel.Name, "range_"):
+									if parsed {
+										ranged = true
+									}
+								case strings.HasPrefix(se.Sel.Name, "mapassign"):
+									if parsed && !ranged && pathWhy == "" {
+										pathWhy = "on a path of the handler (" + p.Pos(ev.Call.Pos()) + ") the key reaches " + se.Sel.Name + " without the range check of that width"
+									}
+								default:
+									if op, isSelf := em.classify(ev.Call, recv); isSelf && op.Kind == "Emit" && len(op.Ops) == 2 && op.Ops[1].Kind == "mem" && op.Ops[1].Name == "" && strings.HasPrefix(op.Mnem, "MOV") {
+										if parsed && !ranged && pathWhy == "" {
+											pathWhy = "on a path of the handler (" + p.Pos(ev.Call.Pos()) + ") the value is stored without the range check of that width"
+										}
+									}
+								}
+							}
+						}
+					}
+					c.Check(sig != "" && parsePos.IsValid() && spos > parsePos && pathWhy == "", cn+"/range-check", fd.Pos(), "narrow parse followed by "+sig+" on every path", "the native parse into a "+r.goType+" is not followed by a range check of that width on every path: out-of-range literals wrap"+map[bool]string{true: "", false: " - " + pathWhy}[pathWhy == ""])
 					sigs = append(sigs, sig)
 				}
 				// (3) store width (value opcode only)
